@@ -62,8 +62,25 @@ pub fn drive(log: &mut Log) {
                             .map(|e| json!([e.interval().start, e.interval().end, *e.data(), e.refid()]))
                             .collect()
                     };
-                    json!({"res": res})
+                    let cnt = if use_loc { ml.find(&q).count() } else { m.find(&q).count() };
+                    json!({"res": res, "cnt": cnt})
                 });
+                if rng.chance(1, 12) {
+                    // the map is replaced by a copy of itself (clone / serde round trip)
+                    let how = rng.below(2);
+                    log.call("copy", json!({"how": how}), || {
+                        if how == 0 {
+                            let (a, b) = (m.clone(), ml.clone());
+                            m = a;
+                            ml = b;
+                        } else {
+                            m = serde_json::from_str(&serde_json::to_string(&m).unwrap()).unwrap();
+                            ml = ml.clone(); // (the location type of this map has no serde support)
+                        }
+                        json!({})
+                    });
+                    log.oblige("map_copied_mid_history");
+                }
             }
         }
     }
